@@ -250,7 +250,7 @@ def compact():
         m = json.loads(mf.read_text())
         c = m.get("check") or {}
         v = (c.get("violation_lines") or [""])[0]
-        verdict = "not run" if not c else ("caught" + (", no-failing-input-found" if "no-failing-input-found" in v else " with failing input")) if m.get("caught") else f"MISSED (exit {c.get('exit')})"
+        verdict = "not run" if not c else ("caught" + (", no-failing-input-found" if "no-failing-input-found" in v else " with failing input")) if m.get("caught") else (f"silent: no longer a violation since /repo {m['obsolete_after']} (see meta.json)" if m.get("obsolete_after") else f"MISSED (exit {c.get('exit')})")
         oc = "; ".join(f"{p}: {'caught' if r['exit'] == 1 and r['violation_lines'] else 'no'}" for p, r in (m.get("other_checks") or {}).items())
         out.append(f"| {mf.parent.name} | {title_of(mf)} | {verdict} | {oc} |")
     return "\n".join(out)
